@@ -98,6 +98,7 @@ pub open spec fn mask_row_ok(data: Seq<bool>, cols: int, b: int, len: int) -> bo
 
 //@unit src/tokenization.rs fn padding_mask
 //@rule R6_tensor
+#[verifier::loop_isolation(false)]
 pub fn padding_mask(lengths: &[usize]) -> (r: PaddingMask)
     requires lengths.len() * max_of(lengths@) <= usize::MAX,     // domain: the mask is addressable
     ensures
@@ -147,6 +148,7 @@ pub fn padding_mask(lengths: &[usize]) -> (r: PaddingMask)
 //@unit src/data/mod.rs fn pad_ids
 //@rule R6_tensor
 //@rule R6_as_ref
+#[verifier::loop_isolation(false)]
 fn pad_ids<T: num::PrimInt>(ids: &[impl AsRef<[T]>], pad_id: T) -> (r: (Array2<T>, Array1<usize>))
     requires max_int(lens_of::<T, _>(ids@)) * ids.len() <= usize::MAX,
     ensures
